@@ -187,6 +187,14 @@ def obligations(tier):
         # in the 2-step obligations above
         for mk, mname in ((0, MGR[0]), (3, MGR[3])):
             for op1, name in enumerate(OPS):
+                if name == 'report':
+                    # the widest first step (every subscription may or may not get the report): one process per second step
+                    for op2, name2 in enumerate(OPS):
+                        obs.append(_hist(f'C08.mgr.three.{mname}.{name}.{name2}', tier, th, CLAIM_H,
+                                         f'manager {mname}; pre-state: two live subscriptions; 3 steps, the first is "{name}", the '
+                                         f'second "{name2}"; requested durations only absent / 5 s; {cut}', twin=(op2 == 0), mkset=0,
+                                         mk=mk, pre=2, n=3, nt=3, zombies=False, slim=True, op1=op1, op2=op2))
+                    continue
                 obs.append(_hist(f'C08.mgr.three.{mname}.{name}', tier, th, CLAIM_H,
                                  f'manager {mname}; pre-state: two live subscriptions; 3 steps, the first is "{name}"; requested '
                                  f'durations only absent / 5 s; {cut}', mkset=0, mk=mk, pre=2, n=3, nt=3, zombies=False, slim=True,
